@@ -122,6 +122,26 @@ ALSO4 = {
            "caller before the end marker is written.",
 }
 
+ALSO5 = {
+    "C01": "the mode helpers compute positions on the tokenised mode, never on the mode string (mode.index / 'in mode').",
+    "C02": "the bulk helpers hand their own dataset and item on to getall.",
+    "C03": "a quotient that is rounded up is a true division (ceil(a // b) rounds nothing).",
+    "C04": "the stop condition is evaluated in the three orderings counter < / = / > budget (spelling-independent).",
+    "C06": "dimensional analysis of the checkpoint completion over samples / updates / epochs (batch sizes: samples per update; "
+           "epoch lengths: per epoch): each derived component has its own unit.",
+    "C07": "the ready-made pipelines construct no torchvision transform that draws by itself.",
+    "C10": "shuffle hands the permutation it drew back to its caller; the mode helpers used to read / write items work on the "
+           "tokenised mode.",
+    "C12": "an explicitly given rank / world size is what the constructor stores ('rank and get_rank()' is reported).",
+    "C13": "effective_length follows the three documented length modes (polynomial identity per mode); the seed of the weighted "
+           "sampler's draw does not depend on the rank; explicit rank / world size are used.",
+    "C14": "a recorded extent (og_h / og_w) is measured on the version of the image the recorded operation is applied to.",
+    "C16": "per-sample and bulk accessor mark a sample unlabeled by the same threshold comparison with the same strictness.",
+    "C18": "KDSingleCollatorWrapper returns (batch, ctx) exactly when self.return_ctx is true.",
+    "C19": "__getattr__ never looks the requested name up on self again (unbounded recursion on copied / unpickled instances).",
+    "C20": "start and end marker are files directly inside the destination folder of the copy.",
+}
+
 CLAIMS = {
     "C17": ("dominance / guard rules on the mask-writing paths, polynomial block bounds, dependence of block sizes on the step-seeded generator",
             "Decides: KDDinoMaskCollator generates masks only for masks[i], i < int(batch_size * num_views * mask_prob), out of "
@@ -320,6 +340,8 @@ def main():
         if pid in ALSO4:
             text = text + " Added with the fourth round (optimisation / API-extension commits with one buried mistake, and their " \
                 "repaired twins): " + ALSO4[pid]
+        if pid in ALSO5:
+            text = text + " Added with the fifth round (small slips with benign neighbours on the same lines): " + ALSO5[pid]
         checks.append({
             "property_id": pid,
             "quick_cmd": f"./check {pid} quick",
